@@ -697,10 +697,12 @@ func (module *InMemoryStorage) deleteGroup(request *protocol.StorageRequest, req
 	if group, ok := clusterMap.consumer[request.Group]; ok && request.Topic != "" {
 		// The group's topics are guarded by the group lock (deleteTopic and the fetches hold only that one)
 		group.lock.Lock()
+		_, consumesTopic := group.topics[request.Topic]
 		delete(group.topics, request.Topic)
 		remainingTopics := len(group.topics)
 		group.lock.Unlock()
-		if remainingTopics == 0 {
+		// The group goes with its last topic - but a topic the group does not consume is nothing to delete
+		if consumesTopic && remainingTopics == 0 {
 			delete(clusterMap.consumer, request.Group)
 		} else {
 			// The consumer group consumes other topics, thus we need to keep its metrics
